@@ -23,6 +23,10 @@ def _order(prods):
     return tuple(sorted(prods, key=lambda p: (NTS.index(p[0]), len(p[1]), p[1])))
 
 
+def sort_key_any(p):
+    return p
+
+
 @lru_cache(None)
 def grammars(n_prods, max_rhs, nts=NTS, ts=TS):
     """All reduced (productive + reachable) grammars with <= n_prods productions over nonterminals
